@@ -395,7 +395,7 @@ def run(ctx):
     obligations = pr["declared"]
     bad_assum = common.check_assumptions(pr) if pr["ok"] else []
     discharged = len(obligations) if pr["ok"] and not bad_assum and not audit else 0
-    gmodel = common.build_ocaml()
+    gmodel = common.build_ocaml("sort")
     # --- correspondence stage
     k1 = stage_keys(ctx, rng, tb, gverif, gmodel)
     k2 = stage_sql(ctx, rng, gverif, gmodel)
